@@ -515,3 +515,77 @@ fn hp_payload_missing() { handle_proposal_payload(false) }
 #[kani::unwind(12)]
 #[kani::stub(std::fmt::format, stub_format)]
 fn hp_payload_present() { handle_proposal_payload(true) }
+
+/// Two proposals processed one after the other (possibly for the same round: an equivocating leader), both extending the
+/// certified block of round 6: at most one vote per round, and vote rounds strictly increase.
+#[kani::proof]
+#[kani::unwind(12)]
+#[kani::stub(std::fmt::format, stub_format)]
+fn pb_two_proposals() {
+    let mut pb = super::kani_core_h::pb_setup_pub(5, 6, 4, 7);
+    store::script_strict(&[1, 0, 1, 0]);
+    // second block: same parent, symbolic round and author, different content
+    let r2: Round = vwit::any_u64();
+    let a2: u8 = vwit::any_u8();
+    vwit::assume(r2 > 6 && r2 < (1u64 << 62) && a2 < 4);
+    let b2 = blk(a2, r2, pb.blk.qc.hash.clone(), 6);
+    vwit::assume(b2.digest() != pb.blk.digest());
+    let r1 = pb.blk.round;
+    let res1 = run_ready(pb.env.core.process_block(&pb.blk));
+    assert!(res1.is_ok());
+    let n1 = sent_len();
+    let res2 = run_ready(pb.env.core.process_block(&b2));
+    assert!(res2.is_ok());
+    let n2 = sent_len();
+    let voted1 = n1 == 1;
+    let voted2 = n2 == n1 + 1;
+    assert!(n1 <= 1 && n2 <= n1 + 1, "C03 more than one message per processed block");
+    if voted1 && voted2 {
+        assert!(sent_u64(0, VOTE_ROUND_OFF) == r1 && sent_u64(1, VOTE_ROUND_OFF) == r2);
+        assert!(r2 > r1, "C03 two votes for one round / vote rounds not strictly increasing");
+    }
+    if voted1 {
+        assert!(r1 == 7, "C03 voted outside the current round");
+    }
+    if voted2 {
+        assert!(r2 == 7, "C03 voted outside the current round");
+    }
+    vwit::cover!(voted1 && !voted2 && r2 == r1);
+    vwit::cover!(!voted1 && voted2);
+    std::mem::forget((res1, res2, b2));
+    std::mem::forget(pb);
+}
+
+/// Hostile proposal: correctly signed by the round's leader, genesis QC, and a TC with NO entries (or two entries: below
+/// quorum). It must be rejected by verification - whatever the embedded QC is - and leave the node untouched; in particular
+/// it must never reach the voting rule (whose `max()` over the TC's high-QC rounds panics on an empty TC).
+fn hostile_genesis_tc(entries: usize) {
+    store::reset();
+    let mut env = mk_core(0, &EQ4);
+    store::script_strict(&[]);
+    env.core.round = 1;
+    env.core.last_voted_round = 0;
+    env.core.high_qc = QC::genesis();
+    let tcr: Round = vwit::any_u64();
+    vwit::assume(tcr < (1u64 << 62));
+    let tc = if entries == 0 { TC { round: tcr, votes: Vec::new() } } else { tc_of(tcr, &[2, 3], 0) };
+    // leader of round 1 is key(1)
+    let mut b = Block { qc: QC::genesis(), tc: Some(tc), author: key(1), round: 1, payload: Vec::new(), signature: Signature::default() };
+    b.signature = sig(1, &b.digest());
+    let s0 = snap(&env);
+    let res = run_ready(env.core.handle_proposal(&b));
+    assert!(res.is_err(), "C04 proposal with an invalid TC accepted because its QC is the genesis QC");
+    assert_untouched(&env, &s0, 0);
+    vwit::cover!(tcr == 0);
+    std::mem::forget(res);
+    std::mem::forget(b);
+    std::mem::forget(env);
+}
+#[kani::proof]
+#[kani::unwind(12)]
+#[kani::stub(std::fmt::format, stub_format)]
+fn hp_genesis_empty_tc() { hostile_genesis_tc(0) }
+#[kani::proof]
+#[kani::unwind(12)]
+#[kani::stub(std::fmt::format, stub_format)]
+fn hp_genesis_subquorum_tc() { hostile_genesis_tc(2) }
